@@ -1355,3 +1355,81 @@ package query
 //@   ensures [rows-are-those-of-the-restore-point] len(view.RecordSet) == len(view.FileInfo.restorePointRecordSet) &&
 //@       forall(k, 0, len(view.RecordSet), len(view.RecordSet[k]) == len(view.FileInfo.restorePointRecordSet[k]) && forall(q, 0, len(view.RecordSet[k]), view.RecordSet[k][q] == view.FileInfo.restorePointRecordSet[k][q]))
 //@   modifies view.Header, view.RecordSet, fresh
+
+// ---------------------------------------------------------------------------------------------
+// C17: ranking functions. Row k (0-based position in the ordered partition) gets:
+//   ROW_NUMBER  k + 1
+//   RANK        1 for the first row; afterwards either the rank of the row before it (when its sort key is equivalent to
+//               the key of the row that opened the current peer group) or its own position k + 1
+//   DENSE_RANK  the same with "one more than the row before it" instead of "its own position"
+// Without ORDER BY (no sort keys) every row opens a group.
+//@ spec def intAt(m map[int]value.Primary, row int) int64 = as(m[row], *value.Integer).value
+//@ spec def isIntAt(m map[int]value.Primary, row int) bool = has(m, row) && is(m[row], *value.Integer)
+//@ func (RowNumber).Execute
+//@   property C17 C19
+//@   safety
+//@   requires distinctRows(partition)
+//@   ensures [row-k-gets-k-plus-one] result1 == nil && forall(k, 0, len(partition), isIntAt(result0, partition[k]) && intAt(result0, partition[k]) == k + 1)
+//@   loop 1 invariant 0 <= $i && $i <= len(partition) && list != nil && fresh(list) && number == $i
+//@   loop 1 invariant forall(k, 0, $i, isIntAt(list, partition[k]) && intAt(list, partition[k]) == k + 1)
+//@   loop 1 modifies fresh
+//@   modifies *
+
+// peer groups as the ranking functions compute them: row k joins the group of the row before it when its sort key is
+// equivalent to the key of the row that opened that group, otherwise it opens a group of its own. opener(k) is the
+// position of the row that opened the group of row k. (Axioms: the definition, by recursion on k.)
+//@ spec func opener(p Partition, svs []SortValues, k int) int reads elems(p) elems(svs) elems(*SortValue) fields(SortValue)
+//@ axiom opener_zero: forallv(p, Partition, forallv(svs, []SortValues, opener(p, svs, 0) == 0))
+//@ axiom opener_step: forallv(p, Partition, forallv(svs, []SortValues, forall(k, 1, MaxInt64,
+//@     opener(p, svs, k) == ite(svsEq(svs[p[k]], svs[p[opener(p, svs, k - 1)]]), opener(p, svs, k - 1), k))))
+//@ axiom opener_range: forallv(p, Partition, forallv(svs, []SortValues, forall(k, 0, MaxInt64, 0 <= opener(p, svs, k) && opener(p, svs, k) <= k)))
+//@ lemma svs_eq_needs_a_key: forallv(a, SortValues, forallv(b, SortValues, svsEq(a, b) ==> b != nil))
+//@   reveal svsEq
+
+//@ spec def rankKeysWf(scope *ReferenceScope, p Partition) bool = scope != nil && len(scope.Records) >= 1 && scope.Records[0].view != nil && distinctRows(p) &&
+//@     (scope.Records[0].view.sortValuesInEachRecord != nil ==> forall(k, 0, len(p), 0 <= p[k] && p[k] < len(scope.Records[0].view.sortValuesInEachRecord) &&
+//@         scope.Records[0].view.sortValuesInEachRecord[p[k]] != nil &&
+//@         len(scope.Records[0].view.sortValuesInEachRecord[p[k]]) == len(scope.Records[0].view.sortValuesInEachRecord[p[0]]) &&
+//@         forall(q, 0, len(scope.Records[0].view.sortValuesInEachRecord[p[k]]), scope.Records[0].view.sortValuesInEachRecord[p[k]][q] != nil && scope.Records[0].view.sortValuesInEachRecord[p[k]][q].SerializedKey == nil)))
+
+//@ func (Rank).Execute
+//@   property C17 C19
+//@   safety
+//@   requires rankKeysWf(scope, partition)
+//@   ensures [without-order-every-row-ranks-by-position] result1 == nil && (scope.Records[0].view.sortValuesInEachRecord == nil ==>
+//@       forall(k, 0, len(partition), isIntAt(result0, partition[k]) && intAt(result0, partition[k]) == k + 1))
+//@   ensures [rank-is-the-position-of-the-group-opener] scope.Records[0].view.sortValuesInEachRecord != nil ==>
+//@       forall(k, 0, len(partition), isIntAt(result0, partition[k]) && intAt(result0, partition[k]) == opener(partition, scope.Records[0].view.sortValuesInEachRecord, k) + 1)
+//@   loop 1 invariant 0 <= $i && $i <= len(partition) && list != nil && fresh(list) && number == $i
+//@   loop 1 invariant scope.Records[0].view.sortValuesInEachRecord == nil ==> forall(k, 0, $i, isIntAt(list, partition[k]) && intAt(list, partition[k]) == k + 1)
+//@   loop 1 invariant scope.Records[0].view.sortValuesInEachRecord != nil && $i > 0 ==> rank == opener(partition, scope.Records[0].view.sortValuesInEachRecord, $i - 1) + 1 &&
+//@       same(currentRank, scope.Records[0].view.sortValuesInEachRecord[partition[rank - 1]])
+//@   loop 1 invariant scope.Records[0].view.sortValuesInEachRecord != nil && $i == 0 ==> currentRank == nil && rank == 0
+//@   loop 1 invariant scope.Records[0].view.sortValuesInEachRecord != nil ==>
+//@       forall(k, 0, $i, isIntAt(list, partition[k]) && intAt(list, partition[k]) == opener(partition, scope.Records[0].view.sortValuesInEachRecord, k) + 1)
+//@   loop 1 modifies fresh
+//@   modifies *
+
+// DENSE_RANK: the number of peer groups opened up to and including the row's own
+//@ spec func denseOf(p Partition, svs []SortValues, k int) int reads elems(p) elems(svs) elems(*SortValue) fields(SortValue)
+//@ axiom dense_zero: forallv(p, Partition, forallv(svs, []SortValues, denseOf(p, svs, 0) == 1))
+//@ axiom dense_step: forallv(p, Partition, forallv(svs, []SortValues, forall(k, 1, MaxInt64,
+//@     denseOf(p, svs, k) == denseOf(p, svs, k - 1) + ite(opener(p, svs, k) == k, 1, 0))))
+//@ axiom dense_range: forallv(p, Partition, forallv(svs, []SortValues, forall(k, 0, MaxInt64, 1 <= denseOf(p, svs, k) && denseOf(p, svs, k) <= k + 1)))
+//@ func (DenseRank).Execute
+//@   property C17 C19
+//@   safety
+//@   requires rankKeysWf(scope, partition)
+//@   ensures [without-order-every-row-opens-a-group] result1 == nil && (scope.Records[0].view.sortValuesInEachRecord == nil ==>
+//@       forall(k, 0, len(partition), isIntAt(result0, partition[k]) && intAt(result0, partition[k]) == k + 1))
+//@   ensures [dense-rank-counts-the-groups-opened-so-far] scope.Records[0].view.sortValuesInEachRecord != nil ==>
+//@       forall(k, 0, len(partition), isIntAt(result0, partition[k]) && intAt(result0, partition[k]) == denseOf(partition, scope.Records[0].view.sortValuesInEachRecord, k))
+//@   loop 1 invariant 0 <= $i && $i <= len(partition) && list != nil && fresh(list)
+//@   loop 1 invariant scope.Records[0].view.sortValuesInEachRecord == nil ==> rank == $i && forall(k, 0, $i, isIntAt(list, partition[k]) && intAt(list, partition[k]) == k + 1)
+//@   loop 1 invariant scope.Records[0].view.sortValuesInEachRecord != nil && $i > 0 ==> rank == denseOf(partition, scope.Records[0].view.sortValuesInEachRecord, $i - 1) &&
+//@       same(currentRank, scope.Records[0].view.sortValuesInEachRecord[partition[opener(partition, scope.Records[0].view.sortValuesInEachRecord, $i - 1)]])
+//@   loop 1 invariant scope.Records[0].view.sortValuesInEachRecord != nil && $i == 0 ==> currentRank == nil && rank == 0
+//@   loop 1 invariant scope.Records[0].view.sortValuesInEachRecord != nil ==>
+//@       forall(k, 0, $i, isIntAt(list, partition[k]) && intAt(list, partition[k]) == denseOf(partition, scope.Records[0].view.sortValuesInEachRecord, k))
+//@   loop 1 modifies fresh
+//@   modifies *
